@@ -10,6 +10,7 @@ import (
 	"grog/internal/label"
 	"grog/internal/model"
 	"grog/internal/output/handlers"
+	"grog/internal/verifhook"
 )
 
 type outputRecord struct {
@@ -171,6 +172,7 @@ func getAncestorSet(graph *dag.DirectedTargetGraph, node model.BuildNode, cache 
 	for len(stack) > 0 {
 		ancestor := stack[len(stack)-1]
 		stack = stack[:len(stack)-1]
+		verifhook.Count("conflict.ancestors")
 
 		if _, seen := set[ancestor.GetLabel()]; seen {
 			continue
